@@ -250,6 +250,9 @@ func sizeShapes(c *lp.Ctx, n int) gen.KeySet {
 	case 0: // binary caterpillar: each key extends the previous by one differing byte
 		var keys []string
 		p := ""
+		if n > 700 {
+			n = 700 // the script line grows with n*n
+		}
 		for i := 0; i < n; i++ {
 			keys = append(keys, p+"a")
 			p += "b"
@@ -417,7 +420,7 @@ func genC17(c *lp.Ctx) {
 	knownPrefixGrowth(c)
 	buildHistory(c)
 	n := c.Pick(150, 800)
-	maxKeys := c.Pick(600, 6000)
+	maxKeys := c.Pick(600, 4000)
 	for it := 0; it < n; it++ {
 		ks := sizeShapes(c, 1+c.Rng.Intn(maxKeys))
 		if len(ks.Keys) == 0 {
@@ -460,7 +463,9 @@ func genC17(c *lp.Ctx) {
 			continue
 		}
 		var m2 string
-		if len(line2) < 3_000_000 {
+		// the model driver reads about 100 KB of script per second: long prefixed sets stay
+		// implementation-only (the size predicate below is checked on them all the same)
+		if len(line2) < c.Pick(3_000_000, 300_000) {
 			c.Op(line2, "ok")
 			m2 = c.Do("trie.marshal")
 		} else {
